@@ -46,9 +46,13 @@ import Driver.Refs
 namespace Driver.Inline
 open MdIt.Inline
 
-def panicName : Panic → String
-  | .fuel => "fuel" | .unwrap => "unwrap" | .slice => "slice" | .underflow => "underflow"
+def rpanicName : RPanic → String
+  | .unwrap => "unwrap" | .slice => "slice" | .underflow => "underflow"
   | .index => "index" | .assert => "assert" | .radix => "radix" | .fromU32 => "from_u32"
+
+def panicName : Panic → String
+  | .fuel => "fuel"
+  | .rust p => rpanicName p
 
 def showRange : Option (Nat × Nat) → String
   | none => "-:-"
@@ -202,7 +206,7 @@ def handle (args : List String) : String :=
       let st1 : Except Panic IState :=
         if preS == "-" then .ok st0 else
         match preS.toNat? with
-        | some pre => st0.pushText pre pos
+        | some pre => liftR (st0.pushText pre pos)
         | none => .ok st0
       match st1 with
       | .error e => "PANIC:" ++ panicName e
@@ -225,7 +229,7 @@ def handle (args : List String) : String :=
     match hexToChars hexSrc, startS.toNat?, posMaxS.toNat?, parseBool csS with
     | some src, some start, some posMax, some cs =>
       match scanDelims (mkCfg 100 [] [] none) src posMax start cs with
-      | .error e => "PANIC:" ++ panicName e
+      | .error e => "PANIC:" ++ rpanicName e
       | .ok d => charsToHex [d.marker] ++ "/" ++ b01 d.canOpen ++ "/" ++ b01 d.canClose ++ "/" ++ toString d.length
     | _, _, _, _ => "bad-args"
   | _ => "bad-op"
